@@ -113,12 +113,16 @@ enum Op {
     Call,
     More0,
     More2,
+    /// stream of 3 frames whose middle one is an error reply carrying continues:true
+    More2ErrMid,
+    /// stream whose final frame is an error reply
+    More2ErrLast,
     Next,
     Oneway,
     Resend,
     DropIter,
 }
-const OPS: &[Op] = &[Op::Call, Op::More0, Op::More2, Op::Next, Op::Oneway, Op::Resend, Op::DropIter];
+const OPS: &[Op] = &[Op::Call, Op::More0, Op::More2, Op::More2ErrMid, Op::More2ErrLast, Op::Next, Op::Oneway, Op::Resend, Op::DropIter];
 
 fn seq_script(v: &Value) -> Vec<Value> {
     if v.get("oneway") == Some(&Value::Bool(true)) {
@@ -126,12 +130,33 @@ fn seq_script(v: &Value) -> Vec<Value> {
     }
     let token = v.get("parameters").and_then(|p| p.get("token")).cloned().unwrap_or(Value::Null);
     let k = v.get("parameters").and_then(|p| p.get("k")).and_then(|k| k.as_u64()).unwrap_or(0);
+    let err_at: Vec<u64> = v.get("parameters").and_then(|p| p.get("err_at")).and_then(|a| a.as_array()).map(|a| a.iter().filter_map(|x| x.as_u64()).collect()).unwrap_or_default();
     if v.get("more") == Some(&Value::Bool(true)) {
-        let mut r: Vec<Value> = (0..k).map(|i| json!({"continues": true, "parameters": {"i": i, "token": token}})).collect();
-        r.push(json!({"parameters": {"i": k, "token": token}}));
-        r
+        // frames 0..k-1 carry continues:true, frame k is final; positions in err_at are error
+        // replies (an error reply that still carries continues:true does not end the stream)
+        (0..=k)
+            .map(|i| {
+                let mut f = if err_at.contains(&i) { json!({"error": "x.y.StreamErr", "parameters": {"i": i, "token": token}}) } else { json!({"parameters": {"i": i, "token": token}}) };
+                if i < k {
+                    f["continues"] = json!(true);
+                }
+                f
+            })
+            .collect()
     } else {
         vec![json!({"parameters": {"token": token}})]
+    }
+}
+
+/// does `item` (an iterator item) correspond to frame `idx` of the stream for `tok`?
+fn item_matches(item: &Option<Result<Value, varlink::Error>>, tok: &str, idx: u64, is_err: bool) -> bool {
+    match item {
+        Some(Ok(v)) => !is_err && v.get("token").and_then(|t| t.as_str()) == Some(tok) && v.get("i").and_then(|x| x.as_u64()) == Some(idx),
+        Some(Err(e)) => match e.kind() {
+            ErrorKind::VarlinkErrorReply(r) => is_err && r.error.as_deref() == Some("x.y.StreamErr") && r.parameters.as_ref().and_then(|p| p.get("token")).and_then(|t| t.as_str()) == Some(tok) && r.parameters.as_ref().and_then(|p| p.get("i")).and_then(|x| x.as_u64()) == Some(idx),
+            _ => false,
+        },
+        None => false,
     }
 }
 
@@ -144,7 +169,7 @@ fn sequential_case(ctx: &Ctx, ops: &[Op], case_id: usize) {
     let mut fs = spawn_fake(srv_end, seq_script, 0);
     // model
     let mut expected_requests: Vec<String> = Vec::new(); // tokens the server must see, in order
-    let mut iter: Option<(MC, String, u64, u64)> = None; // (call, token, k, next index)
+    let mut iter: Option<(MC, String, u64, u64, Vec<u64>)> = None; // (call, token, k, next index, error positions)
     let mut last: Option<MC> = None;
     let mut busy_outcomes = 0;
     let mut trace: Vec<String> = Vec::new();
@@ -175,9 +200,14 @@ fn sequential_case(ctx: &Ctx, ops: &[Op], case_id: usize) {
                 }
                 last = Some(mc);
             }
-            Op::More0 | Op::More2 => {
+            Op::More0 | Op::More2 | Op::More2ErrMid | Op::More2ErrLast => {
                 let k = if *op == Op::More0 { 0 } else { 2 };
-                let mut mc = MC::new(conn.clone(), "x.y.S", json!({"token": token, "k": k}));
+                let err_at: Vec<u64> = match op {
+                    Op::More2ErrMid => vec![1],
+                    Op::More2ErrLast => vec![2],
+                    _ => vec![],
+                };
+                let mut mc = MC::new(conn.clone(), "x.y.S", json!({"token": token, "k": k, "err_at": err_at}));
                 let r = mc.more().map(|_| ());
                 trace.push(format!("{:?}->{:?}", op, r.as_ref().map_err(kind_name)));
                 match (busy, r) {
@@ -191,7 +221,7 @@ fn sequential_case(ctx: &Ctx, ops: &[Op], case_id: usize) {
                     }
                     (false, Ok(())) => {
                         expected_requests.push(token.clone());
-                        iter = Some((mc, token.clone(), k, 0));
+                        iter = Some((mc, token.clone(), k, 0, err_at.clone()));
                     }
                     (false, Err(e)) => {
                         fail = Some(("c07:more-failed-on-free-connection".into(), format!("op {} {:?}: {}", i, op, kind_name(&e))));
@@ -200,26 +230,23 @@ fn sequential_case(ctx: &Ctx, ops: &[Op], case_id: usize) {
                 }
             }
             Op::Next => {
-                if let Some((mut mc, tok, k, idx)) = iter.take() {
+                if let Some((mut mc, tok, k, idx, errs)) = iter.take() {
                     let item = mc.next();
                     trace.push(format!("Next->{:?}", item.as_ref().map(|r| r.as_ref().map_err(kind_name))));
-                    match item {
-                        Some(Ok(v)) if v.get("token").and_then(|t| t.as_str()) == Some(&tok) && v.get("i").and_then(|x| x.as_u64()) == Some(idx) => {
-                            if idx < k {
-                                iter = Some((mc, tok, k, idx + 1));
-                            } else {
-                                // final reply consumed: iterator must now end and the connection be free
-                                if let Some(x) = mc.next() {
-                                    fail = Some(("c07:iterator-continues-after-final".into(), format!("op {}: item after the final reply: {:?}", i, x.map_err(|e| kind_name(&e)))));
-                                    break;
-                                }
-                                last = Some(mc);
+                    if item_matches(&item, &tok, idx, errs.contains(&idx)) {
+                        if idx < k {
+                            iter = Some((mc, tok, k, idx + 1, errs));
+                        } else {
+                            // final reply consumed: iterator must now end and the connection be free
+                            if let Some(x) = mc.next() {
+                                fail = Some(("c07:iterator-continues-after-final".into(), format!("op {}: item after the final reply: {:?}", i, x.map_err(|e| kind_name(&e)))));
+                                break;
                             }
+                            last = Some(mc);
                         }
-                        other => {
-                            fail = Some(("c07:delivery:iterator-item-wrong".into(), format!("op {} expected item {} of {}: {:?}", i, idx, tok, other.map(|r| r.map_err(|e| kind_name(&e))))));
-                            break;
-                        }
+                    } else {
+                        fail = Some(("c07:delivery:iterator-item-wrong".into(), format!("op {} expected item {} of {} (error={}): {:?}", i, idx, tok, errs.contains(&idx), item.map(|r| r.map_err(|e| kind_name(&e))))));
+                        break;
                     }
                 }
             }
@@ -239,14 +266,14 @@ fn sequential_case(ctx: &Ctx, ops: &[Op], case_id: usize) {
             Op::DropIter => {
                 // statement is silent on abandoning an iteration; drain it instead so the
                 // model stays decided: consume all remaining items
-                if let Some((mut mc, tok, k, mut idx)) = iter.take() {
+                if let Some((mut mc, tok, k, mut idx, errs)) = iter.take() {
                     while idx <= k {
-                        match mc.next() {
-                            Some(Ok(v)) if v.get("token").and_then(|t| t.as_str()) == Some(&tok) && v.get("i").and_then(|x| x.as_u64()) == Some(idx) => idx += 1,
-                            other => {
-                                fail = Some(("c07:delivery:iterator-item-wrong".into(), format!("op {} draining {}: item {}: {:?}", i, tok, idx, other.map(|r| r.map_err(|e| kind_name(&e))))));
-                                break;
-                            }
+                        let item = mc.next();
+                        if item_matches(&item, &tok, idx, errs.contains(&idx)) {
+                            idx += 1;
+                        } else {
+                            fail = Some(("c07:delivery:iterator-item-wrong".into(), format!("op {} draining {}: item {} (error={}): {:?}", i, tok, idx, errs.contains(&idx), item.map(|r| r.map_err(|e| kind_name(&e))))));
+                            break;
                         }
                     }
                     if fail.is_some() {
@@ -259,7 +286,7 @@ fn sequential_case(ctx: &Ctx, ops: &[Op], case_id: usize) {
         }
     }
     // finish any open iteration so that the server drains, then close
-    if let Some((mut mc, _, _, _)) = iter.take() {
+    if let Some((mut mc, _, _, _, _)) = iter.take() {
         for _ in mc.by_ref() {}
     }
     drop(last);
@@ -334,7 +361,8 @@ pub fn threaded_round(ctx: &Ctx, nthreads: usize, ops_per_thread: usize, delay_u
                             Err(e) => ("oneway", format!("ERR:{:?}", e.kind())),
                         }
                     } else {
-                        let mut mc = MC::new(conn.clone(), "x.y.S", json!({"token": token, "k": 2}));
+                        let err_mid = rng.chance(1, 2);
+                        let mut mc = MC::new(conn.clone(), "x.y.S", json!({"token": token, "k": 2, "err_at": if err_mid { vec![1] } else { vec![] }}));
                         let r = match mc.more() {
                             Err(e) if matches!(e.kind(), ErrorKind::ConnectionBusy) => "busy".to_string(),
                             Err(e) => format!("ERR:{:?}", e.kind()),
@@ -342,16 +370,16 @@ pub fn threaded_round(ctx: &Ctx, nthreads: usize, ops_per_thread: usize, delay_u
                                 let mut idx = 0u64;
                                 let mut res = "ok".to_string();
                                 for item in it {
-                                    match item {
-                                        Ok(v) if v.get("token").and_then(|t| t.as_str()) == Some(&token) && v.get("i").and_then(|x| x.as_u64()) == Some(idx) => idx += 1,
-                                        Ok(v) => {
-                                            res = format!("FOREIGN:{}", v);
-                                            break;
-                                        }
-                                        Err(e) => {
-                                            res = format!("ERR:{:?}", e.kind());
-                                            break;
-                                        }
+                                    let it2 = Some(item);
+                                    if item_matches(&it2, &token, idx, err_mid && idx == 1) {
+                                        idx += 1;
+                                    } else {
+                                        res = match it2 {
+                                            Some(Ok(v)) => format!("FOREIGN:{}", v),
+                                            Some(Err(e)) => format!("ERR:{:?}", e.kind()),
+                                            None => "ERR:none".into(),
+                                        };
+                                        break;
                                     }
                                     if rng.chance(1, 2) {
                                         std::thread::yield_now();
